@@ -1397,7 +1397,10 @@ impl Universe {
                     openat2_count += 1;
                 }
                 if let Some((from, e)) = input.plan.sticky {
-                    if step >= from && is_fd_creating(nr, &n.data.args) {
+                    // descriptor exhaustion hits the descriptor-creating calls; any other errno (memory
+                    // pressure, a signal storm, an LSM that starts denying) hits every call that can report it
+                    let applies = if e == libc::EMFILE || e == libc::ENFILE { is_fd_creating(nr, &n.data.args) } else { nr != libc::SYS_getrandom && fault_catalogue(nr).iter().any(|f| matches!(f, Fault::Errno(x) if *x == e)) };
+                    if step >= from && applies {
                         fault = Some(Fault::Errno(e));
                     }
                 }
